@@ -1164,18 +1164,26 @@ func judge(c *vlib.Check, bin string, scs []*Scenario, results []*played) {
 	}
 	c.Set("findings_by_key", devCount)
 	selfTest(c, ts, devs, rejected)
-	// replay divergences of sessions whose trace the property accepts: the implementation-level
-	// model predicted an observation that did not come within the (confirmed) wait
+	// Replay divergences: the implementation-level model (WsImpl as the tree is) predicted an observation
+	// that did not come within the confirmed wait.  What the PROPERTY demands is judged by Ws (trace
+	// validation, Stall events, Final); a divergence alone is model drift (DESIGN A.1): recorded, not a verdict -
+	// a repair of an open finding necessarily diverges from the model of the unrepaired tree.
 	drift := 0
+	var driftSamples []string
 	for _, t := range ts {
-		if len(t.res.Diverge) == 0 || rejected[t.sc.ID] {
+		if len(t.res.Diverge) == 0 {
 			continue
 		}
 		drift++
-		c.Violate("replay-divergence:"+divergeKind(t.res.Diverge[0]),
-			fmt.Sprintf("the model's prediction was not observed within the confirmed wait: %s\n%s", strings.Join(t.res.Diverge, "; "), describe(t, len(t.res.Events))), t.sc)
+		if len(driftSamples) < 5 {
+			driftSamples = append(driftSamples, t.sc.ID+": "+strings.Join(t.res.Diverge, "; "))
+		}
 	}
-	c.Set("replay_divergences", drift)
+	c.Set("replay_divergences_model_drift", drift)
+	if drift > 0 {
+		c.Set("replay_divergence_samples", driftSamples)
+		fmt.Fprintf(os.Stderr, "[c11] model drift: %d replayed scripts diverged from WsImpl's prediction, e.g. %s\n", drift, driftSamples[0])
+	}
 	// samples
 	n := 0
 	for _, t := range ts {
